@@ -52,6 +52,9 @@ type ReplayFile struct {
 	OrderDigest    uint64   `json:"order_digest"`
 	Sample         any      `json:"sample,omitempty"`
 	Log            []string `json:"log,omitempty"`
+	// Focus is the value of VERIF_FOCUS when the run was recorded (a bug-hunting aid that narrows the drawn
+	// workload to one kind; never set by registered commands). A replay restores it, so the file is self-contained.
+	Focus string `json:"focus,omitempty"`
 }
 
 type workerLine struct {
@@ -279,6 +282,9 @@ func runReplay(h Harness, tier, path string, verbose bool) int {
 	}
 	if rf.HarnessVersion != h.Version() {
 		fmt.Fprintf(os.Stderr, "note: replay was recorded with harness version %s, this is %s\n", rf.HarnessVersion, h.Version())
+	}
+	if rf.Focus != "" {
+		os.Setenv("VERIF_FOCUS", rf.Focus)
 	}
 	res, _, err := execFresh(h, tier, rf.Trace)
 	if err != nil {
@@ -584,7 +590,7 @@ func minimiseAndWrite(h Harness, tier string, seed uint64, f failure) (string, b
 		Property: h.ID(), HarnessVersion: h.Version(), BatchSeed: seed, RunIndex: f.idx, RunSeed: rs,
 		Trace: min, OriginalDraws: len(full), ShrinkRuns: used,
 		Rule: r1.Rule, Signature: r1.Signature, Detail: r1.Detail, OrderDigest: r1.OrderDigest,
-		Sample: r1.Sample, Log: r1.Log,
+		Sample: r1.Sample, Log: r1.Log, Focus: os.Getenv("VERIF_FOCUS"),
 	}
 	dir := filepath.Join(VerifDir, "replays", h.ID())
 	_ = os.MkdirAll(dir, 0o755)
